@@ -17,6 +17,7 @@ RULE = ("KNNSupervisedOPF and UnsupervisedOPF fits on Gaussian, lattice (heavily
         "pred's post-symmetrisation arc list, cost == min(cost(pred), density), cost > density-1; density - density(root) < 1; unsupervised: "
         "n_clusters == #roots with ids 0..n_clusters-1; propagate_labels gives the root's true label. Non-trivial: >=2 roots, a tree of depth >=2 and "
         ">=1 plateau arc inserted; distinct = case hash.")
+RULE += (" Designed boundary family (150 quick / 2000 thorough cases): five samples with directed 1-NN arcs where density(4) == density(3)+1 bit-exactly (bisection with the library's own density computation, targets just below powers of two): the offer equals density-1 and must be refused.")
 ASSUMPTIONS = [
     "cases whose densities are not finite (every sample has >= k exact duplicates => zero density bound, 0/0) are rejected by precondition",
     "if the private hook point _clustering is absent, the arc-membership clause is inconclusive for KNN (arcs are destroyed) and everything else is still decided at fit return",
